@@ -29,23 +29,42 @@ Fixpoint file_exec (st : fstate) (ops : list op) : option (fstate * list out) :=
    operation that was in progress (None: all operations had returned) *)
 Inductive crashed := Crashed (d : disk) (done : list out) (inflight : option op).
 
-(* [k]: number of lseek/write calls that complete before the process dies *)
-Fixpoint crash_run (st : fstate) (ops : list op) (k : nat) : option crashed :=
+(* [k]: number of lseek/write calls that complete before the process dies.
+   [sysf]/[stepf]: the system calls and the effect of one operation (current tree: file_sys /
+   file_step; the tree before a892b9a: file_sys_orig / file_step_orig) *)
+Section Run.
+Variable sysf : fstate -> op -> list sys.
+Variable stepf : fstate -> op -> option (fstate * out).
+
+Fixpoint crash_run_with (st : fstate) (ops : list op) (k : nat) : option crashed :=
   match ops with
   | [] => Some (Crashed (f_disk st) [] None)
   | o :: r =>
-    let l := file_sys st o in
+    let l := sysf st o in
     if (length l <=? k)%nat then
-      match file_step st o with
+      match stepf st o with
       | None => None
       | Some (st', x) =>
-        match crash_run st' r (k - length l) with
+        match crash_run_with st' r (k - length l) with
         | None => None
         | Some (Crashed d done i) => Some (Crashed d (x :: done) i)
         end
       end
     else Some (Crashed (exec_all (f_disk st) (firstn k l)) [] (Some o))
   end.
+
+Fixpoint run_with (st : fstate) (ops : list op) : option (list out) :=
+  match ops with
+  | [] => Some []
+  | o :: r =>
+    match stepf st o with
+    | None => None
+    | Some (st', x) => match run_with st' r with None => None | Some xs => Some (x :: xs) end
+    end
+  end.
+End Run.
+
+Definition crash_run := crash_run_with file_sys file_step.
 
 (* a new FilePersister object on the surviving files *)
 Definition recover (d : disk) : option fstate :=
@@ -56,32 +75,37 @@ Definition recover (d : disk) : option fstate :=
 
 (* run [pre], die after k calls, reopen, run [after] *)
 Record c27_obs := { o_disk : disk; o_done : list out; o_inflight : option op; o_after : list out }.
-Definition c27_model (pre : list op) (k : nat) (after : list op) : option c27_obs :=
-  match crash_run file_empty pre k with
+Definition c27_model_with sysf stepf (pre : list op) (k : nat) (after : list op) : option c27_obs :=
+  match crash_run_with sysf stepf file_empty pre k with
   | None => None
   | Some (Crashed d done i) =>
     match recover d with
     | None => None
     | Some st =>
-      match file_run st after with
+      match run_with stepf st after with
       | None => None
       | Some outs => Some {| o_disk := d; o_done := done; o_inflight := i; o_after := outs |}
       end
     end
   end.
+Definition c27_model := c27_model_with file_sys file_step.
+Definition c27_model_orig := c27_model_with file_sys_orig file_step_orig.
 
 (* the observables the oracle looks at: how many calls had returned, their results, and the
    results after the reopen *)
-Definition c27_result (pre : list op) (k : nat) (after : list op) : option (nat * list out * list out) :=
-  match c27_model pre k after with
+Definition result_of (m : option c27_obs) : option (nat * list out * list out) :=
+  match m with
   | None => None
   | Some o => Some (length (o_done o), o_done o, o_after o)
   end.
+Definition c27_result (pre : list op) (k : nat) (after : list op) := result_of (c27_model pre k after).
+Definition c27_result_orig (pre : list op) (k : nat) (after : list op) := result_of (c27_model_orig pre k after).
 
 (* ---- hypotheses of the theorems, as executable predicates ---- *)
 
-(* the process dies between the index write and the data write of a message put (the third of
-   its four calls has completed): finding F32 *)
+(* the process dies between the two writes of a message put (the third of its four calls has
+   completed): since a892b9a the record is on disk and its index entry is not (harmless); before,
+   the index entry was there without the record (finding F32, repaired) *)
 Fixpoint crash_torn (st : fstate) (ops : list op) (k : nat) : bool :=
   match ops with
   | [] => false
